@@ -7,6 +7,7 @@ also be stored into a register, to improve performance.
 from .transform import FunctionPass
 from .. import ir
 from ..graph.domtree import CfgInfo
+from ..utils.collections import OrderedSet
 
 
 def is_alloc_promotable(alloc_inst: ir.Alloc):
@@ -64,10 +65,11 @@ class Mem2RegPromotor(FunctionPass):
         Each node in the df(x) requires a phi function,
         where x is a block where the variable is defined.
         """
-        defining_blocks = {st.block for st in stores}
+        defining_blocks = OrderedSet(st.block for st in stores)
 
-        # Create worklist:
-        block_backlog = set(defining_blocks)
+        # Create worklist. Blocks hash by identity, so use ordered
+        # containers to visit them in a reproducible order:
+        block_backlog = list(defining_blocks)
 
         has_phi = set()
 
@@ -75,10 +77,13 @@ class Mem2RegPromotor(FunctionPass):
         idx = 0
         while block_backlog:
             defining_block = block_backlog.pop()
-            for frontier_block in cfg_info.df[defining_block]:
+            frontier = sorted(
+                cfg_info.df[defining_block], key=lambda block: block.name
+            )
+            for frontier_block in frontier:
                 if frontier_block not in has_phi:
                     has_phi.add(frontier_block)
-                    block_backlog.add(frontier_block)
+                    block_backlog.append(frontier_block)
                     phi_name = f"phi_{name}_{idx}"
                     idx += 1
                     phi = ir.Phi(phi_name, phi_ty)
